@@ -177,7 +177,7 @@ func DecodeBoxSR(startPos uint64, sr bits.SliceReader) (Box, error) {
 		b, err = d(h, startPos, sr)
 	}
 	if err != nil {
-		return nil, fmt.Errorf("decode %s pos %d: %w", h.Name, startPos, err)
+		return nil, &boxDecodeError{name: h.Name, pos: startPos, err: err}
 	}
 
 	return b, nil
